@@ -3,6 +3,7 @@
   GETADDR / DUMP bodies), and a bound on the reply length.
 -/
 import Masscanned.Proofs.C16.Reply
+import Masscanned.Proofs.Texts.Facts
 namespace Masscanned.C16
 open Masscanned
 
@@ -99,9 +100,9 @@ theorem portmap_dump2 (s : RpcSt) (ip : Ip) (port : Nat) (h4 : s.procedure = 4) 
 theorem portmap_dump34 (s : RpcSt) (ip : Ip) (port : Nat) (h4 : s.procedure = 4)
     (hv : s.progVersion = 3 ∨ s.progVersion = 4) :
     rpcPortmap s ip port =
-      .ok ([0, 0, 0, 0] ++ (rpcbEntry (netidOf ip) (uaddr ip port) "superuser".toUTF8.toList 2 ++
-        (rpcbEntry (netidOf ip) (uaddr ip port) "superuser".toUTF8.toList 3 ++
-        (rpcbEntry (netidOf ip) (uaddr ip port) "superuser".toUTF8.toList 4 ++ [0, 0, 0, 0])))) := by
+      .ok ([0, 0, 0, 0] ++ (rpcbEntry (netidOf ip) (uaddr ip port) Gen.rpcOwner 2 ++
+        (rpcbEntry (netidOf ip) (uaddr ip port) Gen.rpcOwner 3 ++
+        (rpcbEntry (netidOf ip) (uaddr ip port) Gen.rpcOwner 4 ++ [0, 0, 0, 0])))) := by
   unfold rpcPortmap
   have h2 : ¬s.progVersion = 2 := by omega
   simp [h4, h2, hv, rpcbEntry, netidOf]
@@ -129,19 +130,19 @@ theorem netid_ok (ip : Ip) :
 theorem ok_dump34 (c : Spec.RpcCall) (ip : Ip) (port : Nat) (hx : c.xid < 4294967296) (hport : port < 65536)
     (hp : c.prog = 100000) (h4 : c.proc = 4) (hv : c.vers = 3 ∨ c.vers = 4) :
     Spec.rpcReplyOk c (replyHdr c.xid ++
-      ([0, 0, 0, 0] ++ (rpcbEntry (netidOf ip) (uaddr ip port) "superuser".toUTF8.toList 2 ++
-        (rpcbEntry (netidOf ip) (uaddr ip port) "superuser".toUTF8.toList 3 ++
-        (rpcbEntry (netidOf ip) (uaddr ip port) "superuser".toUTF8.toList 4 ++ [0, 0, 0, 0]))))) ip port = true := by
+      ([0, 0, 0, 0] ++ (rpcbEntry (netidOf ip) (uaddr ip port) Gen.rpcOwner 2 ++
+        (rpcbEntry (netidOf ip) (uaddr ip port) Gen.rpcOwner 3 ++
+        (rpcbEntry (netidOf ip) (uaddr ip port) Gen.rpcOwner 4 ++ [0, 0, 0, 0]))))) ip port = true := by
   have hu := uaddr_len ip port hport
   have hn : (netidOf ip).length < 4294967296 := by
     have : "tcp".toUTF8.toList.length = 3 := by decide +kernel
     have : "tcp6".toUTF8.toList.length = 4 := by decide +kernel
     unfold netidOf; split <;> omega
   have hnid := netid_ok ip
-  have ho : "superuser".toUTF8.toList.length < 4294967296 := by
-    have : "superuser".toUTF8.toList.length = 9 := by decide +kernel
+  have ho : Gen.rpcOwner.length < 4294967296 := by
+    have := Texts.rpcOwner_le
     omega
-  generalize "superuser".toUTF8.toList = owner at *
+  generalize Gen.rpcOwner = owner at *
   generalize netidOf ip = netid at *
   rw [uaddr_eq] at *
   generalize hua : Spec.uaddrOf ip port = ua at *
@@ -213,9 +214,9 @@ theorem build_spec (s : RpcSt) (ci : ClientInfo) (ip : Ip) (port : Nat) (c : Spe
           have : "tcp".toUTF8.toList.length = 3 := by decide +kernel
           have : "tcp6".toUTF8.toList.length = 4 := by decide +kernel
           unfold netidOf; split <;> omega
-        have ho : "superuser".toUTF8.toList.length = 9 := by decide +kernel
+        have ho := Texts.rpcOwner_le
         refine ⟨_, rfl, ?_, by
-          simp only [List.length_append, replyHdr_length, rpcbEntry_length, List.length_cons, List.length_nil, ho]
+          simp only [List.length_append, replyHdr_length, rpcbEntry_length, List.length_cons, List.length_nil]
           omega⟩
         rw [← hcx]; exact ok_dump34 c ip port (by omega) hp (by omega) (by omega) (by omega)
     · have : rpcPortmap s ip port = .ok ([0, 0, 0, 3] ++ []) := by
